@@ -319,6 +319,25 @@ def run(ctx):
     ck.ob("R02b", RP + "apply_op|softfork declared cost", sf is not None and sf[1][1] == 0 and sf[1][2] == ">0" and sf[2],
           "a softfork guard fails iff its declared cost (uint_atom of the first argument) > remaining budget (strict)", site=af.where(sf[0]) if sf else af.where(0),
           detail=show_norm(sf[1]) if sf else None)
+    # ... and that test comes before ANY success of the softfork branch: every successful return that can be reached after the
+    # declared cost was read (including the early `Ok(declared cost)` of an unknown / malformed softfork in consensus mode) lies
+    # behind the test's pass edge - otherwise an unchecked caller-supplied u64 is returned as the cost
+    uas = [b for b, t in af.calls() if (t.get("callee") or "").endswith("uint_atom")]
+    late = []
+    if sf is not None and uas:
+        be = af.bool_edges(sf[0])
+        af.status()
+        from rules.c07 import forward_reach
+        reach_u = set()
+        for u in uas:
+            if af.dominates(u, sf[0]):
+                reach_u |= forward_reach(af, u)
+        for r in sorted(reach_u):
+            if af._last_ret.get(r) == "OK" and not (r == be[1] or af.dominates(be[1], r)):
+                late.append(af.where(r))
+    ck.ob("R02b", RP + "apply_op|softfork declared cost checked before any success", sf is not None and bool(uas) and not late,
+          "no successful return of the softfork branch is reachable without passing the declared-cost test", site=af.where(sf[0]) if sf else af.where(0),
+          detail={"successful returns not behind the test": late})
     # check_cost itself
     cc = cr.fn("cost::check_cost")
     ck.analysed(cc)
